@@ -3,6 +3,7 @@ package props
 import (
 	"fmt"
 	"math/rand"
+	"reflect"
 	"regexp"
 	"sort"
 	"strconv"
@@ -24,6 +25,7 @@ func init() {
 		ID:    "C17",
 		Level: "exploration",
 		Rule: "metadata graphs of 4-40 nodes are generated with a side table (payload string per node, reference lists, distinct flags, sparse explicit IDs, inline nodes, self/forward/cyclic references, attachments on globals, functions and instructions, named metadata defined 1-3 times). Text side: after asm.ParseString every reference slot must be the very object listed under that ID in MetadataDefs and carry the payload of the intended node, distinct and inline/numbered placement must be as written, repeated named metadata must be merged in textual order, and LLVM must read input and printed output alike (canonical form). API side: the same graph built through the Go API with a mix of explicit and unassigned (-1) IDs is printed: definitions must have unique IDs, explicit IDs must be kept, unassigned nodes must get the smallest unused IDs in list order, and the re-parsed module must be structurally identical. The clang -g corpus and the metadata atoms add realistic debug-info graphs: identity census on every reference, and reference conservation - for every ID N the number of `!N` reference tokens in the text must equal the number of edges of the parsed object graph that point at the object listed as !N (no reference dropped, copied into a fresh node, or bound to another object), and the same count for the printed text against the printed graph (no reference spelled out inline). " +
+			"Corpus: two parses of one text share no metadata object; the distinct flag of every numbered definition is conserved between input and output. " +
 			"non-trivial = a graph with at least one forward or cyclic reference; distinct by graph text",
 		Gen:           genC17,
 		MinNontrivial: 100,
@@ -593,6 +595,33 @@ func c17Corpus(r *fw.Rec, s corpus.Source) {
 	}
 	r.TallyN("references", "corpus:ref.metadata", c.Refs["ref.metadata"])
 	r.TallyN("references", "corpus:cyclic.metadata", c.Refs["cyclic.metadata"])
+	// distinctness: `!N = distinct ...` in the text, Distinct on the definition !N (and only there)
+	{
+		wantDistinct := map[int64]bool{}
+		for _, mm := range reDistinctDef.FindAllStringSubmatch(text, -1) {
+			id, _ := strconv.ParseInt(mm[1], 10, 64)
+			wantDistinct[id] = mm[2] != ""
+		}
+		for _, def := range m.MetadataDefs {
+			want, listed := wantDistinct[def.ID()]
+			if !listed {
+				continue
+			}
+			rv := reflect.ValueOf(def)
+			if rv.Kind() != reflect.Ptr || rv.Elem().Kind() != reflect.Struct {
+				continue
+			}
+			f := rv.Elem().FieldByName("Distinct")
+			if !f.IsValid() || f.Kind() != reflect.Bool {
+				continue
+			}
+			if f.Bool() != want {
+				r.Violate(fw.Violation{Key: "corpus-distinct/" + s.ID, Input: text, What: fmt.Sprintf("!%d (%T) is written distinct=%v and parsed with Distinct=%v", def.ID(), def, want, f.Bool())})
+				return
+			}
+			r.Tally("references", "corpus:distinct-flag-as-written")
+		}
+	}
 	// the nodes of a parsed module are its own: a second parse of the same text
 	// shares no metadata object with the first (a node shared between modules is
 	// numbered, edited and printed by both)
@@ -680,3 +709,7 @@ func c17RefConservation(text string, m *ir.Module) (key, what string) {
 	}
 	return "", ""
 }
+
+// reDistinctDef matches a numbered metadata definition line: ID and whether
+// the node is written distinct.
+var reDistinctDef = regexp.MustCompile(`(?m)^!([0-9]+) = (distinct )?!`)
